@@ -4,6 +4,7 @@ package c06
 import (
 	"context"
 	"fmt"
+	"runtime"
 	"strings"
 	"sync"
 	"testing"
@@ -40,7 +41,7 @@ type Case struct {
 var broken = []string{"a +", "nosuch(1)", "a[", "1 div", "'x", "concat('a')", "@a", "a//b"}
 
 func genItem(t *rapid.T) Item {
-	switch rapid.IntRange(0, 6).Draw(t, "itemkind") {
+	switch rapid.IntRange(0, 8).Draw(t, "itemkind") {
 	case 0, 1:
 		return Item{Src: c01.Source(c01.Gen(t)), Ctx: tree.ID{{Name: "ctx"}}}
 	case 2, 3:
@@ -48,6 +49,11 @@ func genItem(t *rapid.T) Item {
 		return Item{Src: c02.Source(c), Ctx: c.Ctx}
 	case 4:
 		return Item{Src: c03.Source(c03.Gen(t)), Ctx: tree.ID{{Name: "top"}, {Name: "ctx"}}}
+	case 7, 8:
+		// a custom function that fails (default value) at "boom" contexts and succeeds elsewhere
+		srcs := []string{"verif-echo(a)", "concat(verif-echo(a), '|', verif-echo(../b))", "verif-echo(a) = 'verif-default'", "string-length(verif-echo(current()/a))"}
+		ctx := []tree.ID{{{Name: "boom"}}, {{Name: "calm"}}, {{Name: "top"}, {Name: "boom"}}, {{Name: "top"}, {Name: "calm2"}}}
+		return Item{Src: srcs[rapid.IntRange(0, len(srcs)-1).Draw(t, "echosrc")], Ctx: ctx[rapid.IntRange(0, len(ctx)-1).Draw(t, "echoctx")]}
 	case 5:
 		return Item{Src: broken[rapid.IntRange(0, len(broken)-1).Draw(t, "broken")], Ctx: tree.ID{}}
 	default:
@@ -91,7 +97,7 @@ func runMachine(m *xpath.Machine, it Item) string {
 }
 
 func isolated(it Item) (outcome, *xpath.Machine) {
-	m, err := expr.NewExprMachine(it.Src, nil)
+	m, err := expr.NewExprMachineWithCustomFunctions(it.Src, nil)
 	if err != nil {
 		return outcome{compileErr: err.Error()}, nil
 	}
@@ -151,13 +157,13 @@ func checkCase(c Case) fw.Outcome {
 				wg.Add(1)
 				go func(i int) {
 					defer wg.Done()
-					machines[i], _ = expr.NewExprMachine(c.Pool[i].Src, nil)
+					machines[i], _ = expr.NewExprMachineWithCustomFunctions(c.Pool[i].Src, nil)
 				}(i)
 			}
 			wg.Wait()
 		} else {
 			for i := range c.Pool {
-				machines[i], _ = expr.NewExprMachine(c.Pool[i].Src, nil)
+				machines[i], _ = expr.NewExprMachineWithCustomFunctions(c.Pool[i].Src, nil)
 			}
 		}
 		var mu sync.Mutex
@@ -239,6 +245,23 @@ var conc = fw.Register(&fw.Prop[Case]{
 	MinLabel: []string{"cold-start"},
 })
 
-func TestMain(m *testing.M) { fw.Main(m) }
+// verifEcho is a plugin-style custom function: it returns its argument, and panics (so that the registered default
+// value is returned) when the argument names a "boom" node.  It yields first, so that concurrent calls overlap.
+func verifEcho(args []xpath.Datum) xpath.Datum {
+	s := args[0].Literal("verif-echo")
+	runtime.Gosched()
+	if strings.Contains(s, "boom") {
+		panic("verif-echo: no echo for " + s)
+	}
+	return xpath.NewLiteralDatum("echo:" + s)
+}
+
+func TestMain(m *testing.M) {
+	xpath.RegisterCustomFunctions([]xpath.CustomFunctionInfo{{
+		Name: "verif-echo", FnPtr: verifEcho, Args: []xpath.DatumTypeChecker{xpath.TypeIsLiteral},
+		RetType: xpath.TypeIsLiteral, DefaultRetVal: xpath.NewLiteralDatum("verif-default"),
+	}})
+	fw.Main(m)
+}
 
 func TestConcurrent(t *testing.T) { fw.Run(t, conc) }
